@@ -11,7 +11,7 @@ pub mod tests;
 // ================================================================================================
 
 /// The number of unique transition constraints in stack manipulation operations.
-pub const NUM_CONSTRAINTS: usize = 13;
+pub const NUM_CONSTRAINTS: usize = 15;
 
 // The co-efficient of the most significant 16-bit limb in the helper register during aggregation.
 pub const TWO_48: Felt = Felt::new(2u64.pow(48));
@@ -38,6 +38,7 @@ pub const CONSTRAINT_DEGREES: [usize; NUM_CONSTRAINTS] = [
     8, // constraint for U32MUL operation
     8, // constraint for U32MADD operation
     8, 7, 7, // constraint for U32DIV operation
+    7, 7, // 2 constraints for U32ASSERT2 operation
 ];
 
 // U32 OPERATIONS TRANSITION CONSTRAINTS
@@ -91,6 +92,10 @@ pub fn enforce_constraints<E: FieldElement<BaseField = Felt>>(
 
     // Enforce constaints of the U32DIV operations.
     index += enforce_u32div_constraints(frame, &mut result[index..], op_flag.u32div(), &limbs);
+
+    // Enforce constaints of the U32ASSERT2 operations.
+    index +=
+        enforce_u32assert2_constraints(frame, &mut result[index..], op_flag.u32assert2(), &limbs);
 
     index
 }
@@ -257,6 +262,24 @@ pub fn enforce_u32div_constraints<E: FieldElement<BaseField = Felt>>(
     result[2] = op_flag * are_equal(a - c, limbs.v_hi() + E::ONE);
 
     3
+}
+
+/// Enforces constraints of the U32ASSERT2 operation. The operation does not change the stack; the
+/// top element is decomposed into the two lower 16-bit limbs and the second element into the two
+/// upper 16-bit limbs (which are range checked), so both elements must be 32-bit values.
+pub fn enforce_u32assert2_constraints<E: FieldElement<BaseField = Felt>>(
+    frame: &EvaluationFrame<E>,
+    result: &mut [E],
+    op_flag: E,
+    limbs: &LimbCompositions<E>,
+) -> usize {
+    // Enforces that the aggregation of the two lower 16-bit limbs is equal to the top element.
+    result[0] = op_flag * are_equal(frame.stack_item(0), limbs.v_lo());
+
+    // Enforces that the aggregation of the two upper 16-bit limbs is equal to the second element.
+    result[1] = op_flag * are_equal(frame.stack_item(1), limbs.v_hi());
+
+    2
 }
 
 // GENERAL U32 OPERATION CONSTRAINTS
